@@ -100,16 +100,8 @@ Theorem counts_agree : forall s parent sel flags par,
 Proof. exact counts_agree_fresh. Qed.
 
 (* --- still refuted on the tree as it stands --- *)
-Theorem inv_step_refuted_alias_after_delete : exists s o, inv_full s = true /\ alias_resolved (fst (step pinned s o)) = false.
-Proof. exists (w_inter_pre pinned), w_inter_op. pose proof w_inter; tauto. Qed.
 Theorem inv_step_refuted_cross_container_cache : exists s o, inv_full s = true /\ cache_consistent (fst (step pinned s o)) = false.
 Proof. exists (w_xcache_pre pinned), w_xcache_op. exact w_xcache. Qed.
-(* with the proposed repair C15-13 the first witness keeps the full invariant; with C15-14 a subfield
-   added through a '.'-prefixed parent code does (on the current tree that call is outside the model) *)
-Theorem proposed_repairs_close_witnesses :
-  inv_full (fst (step fixed (w_inter_pre fixed) w_inter_op)) = true /\
-  inv_full (fst (step fixed (w_dotpar_pre fixed) w_dotpar_op)) = true.
-Proof. pose proof w_inter; pose proof w_dotpar; tauto. Qed.
 
 (* --- regression: the ten sequences that broke the invariant before the repairs in /repo --- *)
 Theorem repaired_witnesses_keep_full_invariant :
@@ -125,8 +117,10 @@ Theorem repaired_witnesses_keep_full_invariant :
   inv_full (fst (step pinned (w_loop_pre pinned) w_loop_op)) = true /\
   inv_full (fst (step pinned (w_stale_pre pinned) w_stale_op)) = true /\
   inv_full (fst (step pinned (w_deref_pre pinned) w_deref_op)) = true /\
-  snd (step pinned (w_dup_pre pinned) w_dup_op) = RInt E_DUPLICATE.
+  snd (step pinned (w_dup_pre pinned) w_dup_op) = RInt E_DUPLICATE /\
+  inv_full (fst (step pinned (w_inter_pre pinned) w_inter_op)) = true /\
+  inv_full (fst (step pinned (w_dotpar_pre pinned) w_dotpar_op)) = true.
 Proof.
-  pose proof w_stale; pose proof w_deref; pose proof w_dup; pose proof w_delref; pose proof w_hide; pose proof w_affix; pose proof w_delmeta; pose proof w_rencache;
+  pose proof w_inter; pose proof w_dotpar; pose proof w_stale; pose proof w_deref; pose proof w_dup; pose proof w_delref; pose proof w_hide; pose proof w_affix; pose proof w_delmeta; pose proof w_rencache;
   pose proof w_renref; pose proof w_spec; pose proof w_parent; pose proof w_malias; pose proof w_loop. tauto.
 Qed.
